@@ -39,14 +39,24 @@ CRYSTALS = {
     "sc": ((1.01, 1.45), 1.01, ()),
     "hcp": ((1.01,), 1.01, ()),
     "b2": ((0.9, 1.01), 1.01, (1,)),
+    # TWO mobile chemistries (both sublattices of B2 carry occupation variables; species 0 jumps): clusters mix
+    # the sublattices, so barriers depend on the occupation of the sublattice that does not jump
+    "b2m": ((0.9, 1.01), 1.01, ()),
+    # the jumping species is chemistry index 1; chemistry 0 is the spectator
+    "b2c1": ((0.9, 1.01), 1.01, (0,)),
     # one mobile chemistry on two INEQUIVALENT sites joined by the jump network (octahedral + 2 tetrahedral
     # interstitial sites of fcc): jumps whose end points have different on-site energies
     "octtet": ((0.45, 0.55), 0.55, ()),     # two jump types: oct-tet and tet-tet
 }
-NSITES = {"hcp": 2, "octtet": 3}
+NSITES = {"hcp": 2, "octtet": 3, "b2m": 2}
 if os.environ.get("MCSIM_CRYSTALS"):      # A/B experiments only
     CRYSTALS = {k: v for k, v in CRYSTALS.items() if k in os.environ["MCSIM_CRYSTALS"].split(",")}
 CHEM = 0
+CHEMOF = {"b2c1": 1}        # crystal -> chemistry index of the jumping species (default 0)
+
+
+def chem_of(name):
+    return CHEMOF.get(name, CHEM)
 _CRYS, _CE = {}, {}
 
 
@@ -60,7 +70,7 @@ def get_crystal(name):
             c = crystal.Crystal(np.eye(3), [np.zeros(3)], ["A"])
         elif name == "hcp":
             c = crystal.Crystal.HCP(1., chemistry="A")
-        elif name == "b2":
+        elif name in ("b2", "b2m", "b2c1"):
             c = crystal.Crystal(np.eye(3), [[np.zeros(3)], [0.5 * np.ones(3)]], ["A", "B"])
         elif name == "octtet":
             fcc = crystal.Crystal.FCC(1., "A")
@@ -78,10 +88,11 @@ def get_expansions(name, cutoff, order):
     if key not in _CE:
         crys = get_crystal(name)
         ce = cluster.makeclusters(crys, cutoff, order)
-        jn = crys.jumpnetwork(CHEM, CRYSTALS[name][1])
-        vce = cluster.makeVacancyClusters(crys, CHEM, ce)
-        ts = cluster.makeTSclusters(crys, CHEM, jn, ce)
-        tsv = cluster.makeTSclusters(crys, CHEM, jn, vce)
+        chem = chem_of(name)
+        jn = crys.jumpnetwork(chem, CRYSTALS[name][1])
+        vce = cluster.makeVacancyClusters(crys, chem, ce)
+        ts = cluster.makeTSclusters(crys, chem, jn, ce)
+        tsv = cluster.makeTSclusters(crys, chem, jn, vce)
         _CE[key] = (ce, jn, vce, ts, tsv)
     return _CE[key]
 
@@ -116,7 +127,11 @@ class World(object):
         self.nsites = sup.Nmobile * sup.size
         srnd = random.Random(w["sseed"])
         self.socc = np.array([srnd.choice((0, 1, 1)) for _ in range(sup.Nspec * sup.size)], dtype=int)
-        self.vacsite = (w["vacsite"] % self.nsites) if self.vac else None
+        # the vacancy sits on a site of the jumping species
+        self.chem = chem_of(w["crystal"])
+        jumping = [i for i in range(self.nsites) if sup.mobileindices[i % sup.Nmobile][0] == self.chem]
+        self.jumping = jumping
+        self.vacsite = jumping[w["vacsite"] % len(jumping)] if self.vac else None
         self.scale = float(np.sum(np.abs(self.evalues)) * max(1, self.nsites) +
                            np.sum(np.abs(self.tsvalues)) + np.sum(np.abs(self.kra)) + 1.0)
         self.exact = w["values"] == "dyadic"
@@ -127,7 +142,7 @@ class World(object):
         if self.vac:
             sup.addvacancy(self.vacsite if vacsite is None else vacsite)
         if self.w["jumps"]:
-            return cluster.MonteCarloSampler(sup, self.socc, self.ce, self.evalues, CHEM, self.jn,
+            return cluster.MonteCarloSampler(sup, self.socc, self.ce, self.evalues, self.chem, self.jn,
                                              KRAvalues=self.kra, TSclusters=self.ts, TSvalues=self.tsvalues)
         return cluster.MonteCarloSampler(sup, self.socc, self.ce, self.evalues)
 
@@ -157,8 +172,8 @@ def c34_admissible(name, skey, cutoff, order):
     zero = np.zeros(3, dtype=int)
     for jlist in jn:
         for (i0, j0), dx in jlist:
-            dR, cj = crys.cart2pos(crys.pos2cart(zero, (CHEM, i0)) + dx)
-            if sup.index(zero, (CHEM, i0))[0] == sup.index(dR, cj)[0]:
+            dR, cj = crys.cart2pos(crys.pos2cart(zero, (chem_of(name), i0)) + dx)
+            if sup.index(zero, (chem_of(name), i0))[0] == sup.index(dR, cj)[0]:
                 ok = False
     if ok and mode == "full":
         for group in (ce, vce, ts, tsv):
@@ -316,8 +331,13 @@ class Run(RunBase):
                 return op
             return {"op": "transitions"}
         if x < 0.40:
-            return {"op": "trial", "occ": rng.sample(unoc, min(len(unoc), rng.randrange(0, 4))),
-                    "unocc": rng.sample(occd, min(len(occd), rng.randrange(0, 4)))}
+            a = rng.sample(unoc, min(len(unoc), rng.randrange(0, 4)))
+            b = rng.sample(occd, min(len(occd), rng.randrange(0, 4)))
+            if rng.random() < 0.3:
+                # redundant entries (sites already in the requested state): documented as skipped
+                a = a + [i for i in rng.sample(occd, min(len(occd), 2)) if i not in b]
+                b = b + [i for i in rng.sample(unoc, min(len(unoc), 1)) if i not in a]
+            return {"op": "trial", "occ": a, "unocc": b}
         if x < 0.48 and self.w["jumps"]:
             return {"op": "transitions"}
         # updates: single swap, single flip, multi-site, redundant entries, duplicates
@@ -368,7 +388,8 @@ class Run(RunBase):
         if x < 0.40:
             return {"op": "swap", "o": rng.randrange(self.n), "u": rng.randrange(self.n), "do": False}
         if x < 0.70:
-            return {"op": "swap", "o": rng.randrange(self.n), "u": rng.randrange(self.n), "do": True}
+            return {"op": "swap", "o": rng.randrange(self.n), "u": rng.randrange(self.n), "do": True,
+                    "jit_first": rng.random() < 0.5}
         L = rng.choice((1, 2, 4, 8, 16, 32, 64))
         if self.W.exact:
             # dyadic worlds: every dE is exact, so exact ties dE == kTlogu are decidable (the Metropolis rule
@@ -474,6 +495,8 @@ class Run(RunBase):
                 pass       # documented: ValueError; what C33 needs is that nothing changed
             self.unchanged_after_reject(index, "trial-on-vacancy")
             return "rejected"
+        if any(self.mocc[i] == 1 for i in a) or any(self.mocc[i] == 0 for i in b):
+            self.faults["redundant-trial-entries"] += 1
         d = self.mc.deltaE_trial(self._as(op.get("as"), a), self._as(op.get("as"), b))
         self.probes["trial"] += 1
         return "dE=" + fhex(d)
@@ -669,8 +692,14 @@ class Run(RunBase):
         if not self.W.close(d_ref, d_jit):
             self.fail("trial", "deltaE_trial({},{}) reference {!r} compiled {!r}".format(o, u, d_ref, d_jit))
         if op["do"]:
-            self.mc.update((o,), (u,))
-            self.jit.update(o, u)
+            # two independent samplers: the order in which the caller advances them must not matter
+            if op.get("jit_first"):
+                self.jit.update(o, u)
+                self.mc.update((o,), (u,))
+                self.probes["compiled-updated-first"] += 1
+            else:
+                self.mc.update((o,), (u,))
+                self.jit.update(o, u)
             self.mocc[o], self.mocc[u] = 1, 0
         return "swap {} {} dE={}".format(o, u, fhex(d_ref))
 
@@ -812,7 +841,7 @@ class Engine(object):
             c = rng.choice(sorted(CRYSTALS))
             s = rng.choice(sorted(SUPERS))
             cutoff = rng.choice(CRYSTALS[c][0])
-            order = rng.choice((2, 3, 3))
+            order = rng.choice((2, 3, 3, 3, 4))
             S = np.array(SUPERS[s])
             nsites = abs(int(round(np.linalg.det(S)))) * NSITES.get(c, 1)
             if nsites > (54 if self.tier == "thorough" else 36):
